@@ -409,12 +409,10 @@ class TaggedUnionConverter(UnionConverter):
             (tag, val) = next(iter(val.items()))
         else:
             (t_r, c_r) = self.external
-            try:
-                if len(val) != 2:
-                    raise ParseInterrupt()
-                tag, val = val[t_r], val[c_r]
-            except KeyError:
+            # test for the keys before reading them: indexing a `defaultdict` would add them to the caller's mapping
+            if len(val) != 2 or t_r not in val or c_r not in val:
                 raise ParseInterrupt()
+            tag, val = val[t_r], val[c_r]
         try:
             i = self.tag_map[tag]
         except (KeyError, TypeError):  # TypeError: unhashable tag
@@ -441,12 +439,9 @@ class TaggedUnionConverter(UnionConverter):
             (tag, val) = next(iter(val.items()))
         else:
             (t_r, c_r) = self.external
-            try:
-                if len(val) != 2:
-                    raise KeyError()
-                tag, val = val[t_r], val[c_r]
-            except KeyError:
+            if len(val) != 2 or t_r not in val or c_r not in val:
                 return WrongTypeError(f"mapping with keys '{t_r}' and '{c_r}'", val)
+            tag, val = val[t_r], val[c_r]
         try:
             i = self.tag_map[tag]
         except (KeyError, TypeError):  # TypeError: unhashable tag
